@@ -52,6 +52,7 @@ import (
 	eth2api "github.com/attestantio/go-eth2-client/api"
 	eth2p0 "github.com/attestantio/go-eth2-client/spec/phase0"
 	k1 "github.com/decred/dcrd/dcrec/secp256k1/v4"
+	"github.com/fsnotify/fsnotify"
 	"go.uber.org/zap"
 	"go.uber.org/zap/zapcore"
 	"go.uber.org/zap/zaptest/observer"
@@ -791,6 +792,8 @@ func (r *run) tamper(resp wireResp, kind string, filter []int) wireResp {
 		})
 	case "empty":
 		resp.Validators = []wireVal{}
+	case "nullmsg": // a malformed answer: the groups carry no message
+		each(func(g *wireGroup) { g.Message = nil })
 	case "swapsig": // the first signature of a quorum group is replaced by the same share's signature over ANOTHER message
 		for i := range resp.Validators {
 			v := r.valOf(resp.Validators[i].Pubkey)
@@ -994,6 +997,9 @@ func (r *run) start(st drv.Step) {
 		done := drv.Step{"ev": "Done", "c": c, "ok": err == nil, "file": r.fileState(op)}
 		if err != nil {
 			done["err"] = err.Error()
+			if strings.HasPrefix(err.Error(), "PANIC") {
+				done["panic"] = true
+			}
 		}
 		if kind == "list" {
 			done["printed"] = r.printed(logs)
@@ -1295,6 +1301,12 @@ func (r *run) nodeStart(st drv.Step) {
 	r.log(ev)
 	who := fmt.Sprintf("node-%d", op)
 	if r.mode == "A" {
+		// no inotify instance left on this machine is the executor's trouble, not the node's
+		if fw, err := fsnotify.NewWatcher(); err != nil {
+			r.w.t.Fatalf("cannot create a file watcher: %v", err)
+		} else {
+			fw.Close()
+		}
 		go func() { svc.Run(ctx); close(n.done) }()
 		r.await(who)
 	} else {
